@@ -170,13 +170,31 @@ theorem C08_combine_old_drops_parentheses :
 
 /-! ## invert-boolean-check -/
 
-theorem newComparison_wp (op : Cop) (l r : E) (hl : WP 7 l = true) (hr : WP 7 r = true) :
+theorem wp_fresh_cmp (o : Cop) (l r : E) (hl : WP 7 l = true) (hr : WP 7 r = true) : WP 5 (cmp o l r false) = true := by
+  simp [WP, level, par, opLevel, hl, hr]
+
+theorem wp_fresh_not (l : E) (hl : WP 7 l = true) : WP 5 (lnot l false) = true := by
+  simp [WP, level, par, opLevel]; exact WP_mono (by omega) l hl
+
+theorem newComparison_wp : ∀ (l : E) (op : Cop) (r : E), WP 7 l = true → WP 7 r = true →
     WP 5 (newComparison op l r) = true := by
-  unfold newComparison
-  split
-  · simp [WP, level, par, opLevel]; exact WP_mono (by omega) l hl
-  · exact WP_mono (by omega) l hl
-  · simp [WP, level, par, opLevel, hl, hr]
+  intro l
+  induction l with
+  | cmp op' l' r' q ihl ihr =>
+    intro op r hl hr
+    unfold newComparison
+    split
+    · simp only [WP, Bool.and_eq_true] at hl
+      exact ihl op' r' hl.1.2 hl.2
+    · exact WP_mono (by omega) _ hl
+    · exact wp_fresh_cmp _ _ _ hl hr
+  | _ =>
+    intro op r hl hr
+    unfold newComparison
+    split
+    · exact wp_fresh_not _ hl
+    · exact WP_mono (by omega) _ hl
+    · exact wp_fresh_cmp _ _ _ hl hr
 
 theorem addPar_wp {m k : Nat} (pn : Bool) (e : E) (he : WP k e = true)
     (hm : m ≤ if pn then 10 else k) : WP m (addPar pn e) = true := by
@@ -198,7 +216,7 @@ theorem invertStep_wp (m : Nat) (e : E) (h : WP m e = true) : WP m (invertStep t
     obtain ⟨hm, hc⟩ := h
     obtain ⟨⟨_, hl⟩, hr⟩ := hc
     simp only [if_true]
-    apply addPar_wp pn _ (newComparison_wp op l r hl hr)
+    apply addPar_wp pn _ (newComparison_wp l op r hl hr)
     cases pn <;> simpa [level, par, opLevel] using hm
   · exact h
 
